@@ -57,7 +57,7 @@ func toValue(r interface{}, out reflect.Type, isVariadic bool) (reflect.Value, e
 	}
 
 	if r == nil && (out.Kind() == reflect.Interface || out.Kind() == reflect.Ptr || out.Kind() == reflect.Slice ||
-		out.Kind() == reflect.Map || out.Kind() == reflect.Array || out.Kind() == reflect.Chan) {
+		out.Kind() == reflect.Map || out.Kind() == reflect.Array || out.Kind() == reflect.Chan || out.Kind() == reflect.Func) {
 		v = reflect.Zero(reflect.SliceOf(out).Elem())
 	} else if v.Type().Kind() == reflect.Ptr &&
 		v.Type() == reflect.TypeOf(&iface.IContext{}) {
